@@ -429,7 +429,8 @@ fn send_wakers(v: &mut Vec<Sc>) {
             other => Err(format!("{other:?}")),
         }),
     ));
-    // two notifiers with different signals; every path waits for one of them, round-robin start
+    // two notifiers with different signals racing through the round-robin `last_woken` cursor;
+    // the sleeper sits on the second path, the first path is registered but idle
     v.push(sc(
         "sendwakers/two-notifiers-two-paths",
         || {
@@ -439,22 +440,20 @@ fn send_wakers(v: &mut Vec<Sc>) {
             all.insert(pathway(1), &wa);
             all.insert(pathway(2), &wb);
             let (all1, all2) = (all.clone(), all.clone());
-            let (oa, ob) = (obs.clone(), obs.clone());
+            let ob = obs.clone();
             (
                 obs,
                 vec![
-                    ("path-a".into(), body(move |c| {
-                        let mut f = Box::pin(wa.wait_for(Signals::WRITTEN));
-                        wait(c, "a.wait_for(WRITTEN)", |cx| f.as_mut().poll(cx));
-                        oa.set("a", "woken");
-                    })),
                     ("path-b".into(), body(move |c| {
+                        let _idle = wa;
                         let mut f = Box::pin(wb.wait_for(Signals::FLOW_CONTROL));
                         wait(c, "b.wait_for(FLOW_CONTROL)", |cx| f.as_mut().poll(cx));
                         ob.set("b", "woken");
                     })),
                     ("writer".into(), body(move |c| {
                         c.point("wake_all_by(WRITTEN)");
+                        all1.wake_all_by(Signals::WRITTEN);
+                        c.point("wake_all_by(WRITTEN) again");
                         all1.wake_all_by(Signals::WRITTEN);
                     })),
                     ("max-data".into(), body(move |c| {
@@ -464,10 +463,7 @@ fn send_wakers(v: &mut Vec<Sc>) {
                 ],
             )
         },
-        Box::new(|o| match (o.get("a").as_deref(), o.get("b").as_deref()) {
-            (Some("woken"), Some("woken")) => Ok("both-woken".into()),
-            other => Err(format!("{other:?}")),
-        }),
+        expect_eq("b", &["woken"]),
     ));
 }
 
@@ -780,14 +776,18 @@ fn remote_cid(v: &mut Vec<Sc>) {
                 let tx = ArcSendWaker::new();
                 let o = obs.clone();
                 let mut t: Vec<(String, Body)> = vec![("path-1".into(), body(move |c| {
+                    // the burst loop of the path: the attempt registers the path's send waker in
+                    // the cell, then the task waits for the signal (a scheduling point between
+                    // the two: that is the window a wake-up can fall into); once woken it
+                    // tries again at once
                     let got = loop {
-                        c.point("borrow_cid");
                         match cell1.borrow_cid(tx.clone()) {
                             Ok(Some(id)) => break format!("id:{:02x}", id[0]),
                             Ok(None) => break "retired".to_string(),
                             Err(signals) => {
+                                c.point("wait_for(CONNECTION_ID)");
                                 let mut f = Box::pin(tx.wait_for(signals));
-                                c.block_on("wait_for(CONNECTION_ID)", |cx| f.as_mut().poll(cx));
+                                wait(c, "wait_for(CONNECTION_ID)", |cx| f.as_mut().poll(cx));
                             }
                         }
                     };
@@ -1146,8 +1146,10 @@ fn two_waiters(v: &mut Vec<Sc>) {
                         p.on_conn_error(&close_error());
                     })));
                 } else {
-                    let (p2, p3) = (ps.clone(), ps.clone());
-                    t.push(("tls".into(), body(move |c| {
+                    // (the race between the TLS task and the packet task is c16.rs's
+                    // params/ready-vs-recv+scid; here both halves come from one thread)
+                    let p2 = ps.clone();
+                    t.push(("handshake".into(), body(move |c| {
                         c.point("recv_remote_params");
                         let mut sp = ServerParameters::default();
                         sp.set(ParameterId::InitialSourceConnectionId, cid(2)).unwrap();
@@ -1155,10 +1157,8 @@ fn two_waiters(v: &mut Vec<Sc>) {
                         if let Ok(mut g) = p2.lock_guard() {
                             let _ = g.recv_remote_params(sp);
                         }
-                    })));
-                    t.push(("packet".into(), body(move |c| {
                         c.point("initial_scid_from_peer");
-                        if let Ok(mut g) = p3.lock_guard() {
+                        if let Ok(mut g) = p2.lock_guard() {
                             let _ = g.initial_scid_from_peer_need_equal(cid(2));
                         }
                     })));
